@@ -18,7 +18,7 @@ func init() {
 		checks[p] = checkFlatten
 	}
 	checks["FLATTEN"] = checkFlattenAll
-	replayers["flatten"] = replayFlatten
+	// (replays go through the generic replayer: the operation is re-executed and TLC judges the new record)
 }
 
 var baseOptSets = []flattenOpts{
